@@ -537,6 +537,14 @@ class Seq:
         n = self.len
         return Seq(n, lambda j: self.at(zint(n) - 1 - j), self.sort)
 
+    def clone(self):
+        """Same sequence as a new object (keeps the structural hints of enumerations)."""
+        c = Seq(self.len, self._at, self.sort, self.note)
+        for a in ("enum", "guard", "value", "src_len", "index_enum", "perm", "src"):
+            if hasattr(self, a):
+                setattr(c, a, getattr(self, a))
+        return c
+
     def slice(self, lo, hi):
         """Elements lo..hi-1 (already clamped by the caller: 0<=lo<=hi<=len)."""
         return Seq(sub(hi, lo), lambda j: self.at(zint(lo) + j), self.sort)
@@ -569,16 +577,28 @@ class Enum:
         key = body.sexpr()
         if key in cache:
             e, pos, first = cache[key]
-            if pos < len(ctx.assumptions) and ctx.assumptions[pos] is first:
+            if pos is None or (pos < len(ctx.assumptions) and ctx.assumptions[pos] is first):
                 return e
-        e = Enum()
-        e.n = n
-        e.g = g
-        e.cnt = ctx.fresh("cnt", INT)
-        e.idx = ctx.fresh_fn("idx", INT, INT)
-        e.rk = ctx.fresh_fn("rk", INT, INT)
+        # an enumeration whose predicate does not mention the indices of the enclosing symbolic loops is
+        # the same in every iteration: define it once, globally (the axioms are definitional)
+        deps = [lv for lv in ctx.loop_vars if occurs(lv, body)]
+        is_global = not deps
+        saved = ctx.loop_vars
+        if is_global:
+            ctx.loop_vars = []
+        try:
+            e = Enum()
+            e.n = n
+            e.g = g
+            e.cnt = ctx.fresh("cnt", INT)
+            e.idx = ctx.fresh_fn("idx", INT, INT)
+            e.rk = ctx.fresh_fn("rk", INT, INT)
+        finally:
+            ctx.loop_vars = saved
         j, j2, i = z3.Ints("j!ax j2!ax i!ax")
         nn = zint(n)
+        gi = zbool(g(i))
+        trig = [e.rk(i)] + [t for t in pattern_terms(gi, i)]
         ax = [
             e.cnt >= 0, e.cnt <= z3.If(nn >= 0, nn, 0),
             z3.ForAll([j], z3.Implies(z3.And(0 <= j, j < e.cnt),
@@ -586,19 +606,60 @@ class Enum:
                                              e.rk(e.idx(j)) == j)), patterns=[e.idx(j)]),
             z3.ForAll([j, j2], z3.Implies(z3.And(0 <= j, j < j2, j2 < e.cnt), e.idx(j) < e.idx(j2)),
                       patterns=[z3.MultiPattern(e.idx(j), e.idx(j2))]),
-            z3.ForAll([i], z3.Implies(z3.And(0 <= i, i < nn, zbool(g(i))),
+            z3.ForAll([i], z3.Implies(z3.And(0 <= i, i < nn, gi),
                                       z3.And(0 <= e.rk(i), e.rk(i) < e.cnt, e.idx(e.rk(i)) == i)),
-                      patterns=[e.rk(i)]),
+                      patterns=trig),
             # monotone rank: number of selected positions below i
             z3.ForAll([i, j], z3.Implies(z3.And(0 <= i, i < j, j < nn, zbool(g(i)), zbool(g(j))),
                                          e.rk(i) < e.rk(j)),
                       patterns=[z3.MultiPattern(e.rk(i), e.rk(j))]),
-            z3.Implies(z3.ForAll([i], z3.Implies(z3.And(0 <= i, i < nn), zbool(g(i)))), e.cnt == z3.If(nn >= 0, nn, 0)),
+            z3.Implies(z3.ForAll([i], z3.Implies(z3.And(0 <= i, i < nn), gi)), e.cnt == z3.If(nn >= 0, nn, 0)),
         ]
-        pos = len(ctx.assumptions)
-        ctx.assumptions.extend(ax)
-        cache[key] = (e, pos, ax[0])
+        if is_global:
+            ctx.axioms.extend(ax)
+            cache[key] = (e, None, None)
+        else:
+            pos = len(ctx.assumptions)
+            ctx.assumptions.extend(ax)
+            cache[key] = (e, pos, ax[0])
         return e
+
+
+def occurs(const, term):
+    todo = [term]
+    seen = set()
+    while todo:
+        x = todo.pop()
+        i = x.get_id()
+        if i in seen:
+            continue
+        seen.add(i)
+        if x.eq(const):
+            return True
+        if z3.is_quantifier(x):
+            todo.append(x.body())
+        else:
+            todo.extend(x.children())
+    return False
+
+
+def pattern_terms(term, var):
+    """Uninterpreted-function applications inside `term` that mention `var` (usable as triggers)."""
+    out = []
+    todo = [term]
+    seen = set()
+    while todo:
+        x = todo.pop()
+        i = x.get_id()
+        if i in seen or z3.is_quantifier(x):
+            continue
+        seen.add(i)
+        if z3.is_app(x) and x.decl().kind() == z3.Z3_OP_UNINTERPRETED and x.num_args() > 0 and occurs(var, x):
+            if all(not z3.is_quantifier(c) for c in x.children()):
+                out.append(x)
+                continue
+        todo.extend(x.children())
+    return out[:3]
 
 
 def filter_seq(ctx, src_len, guard, value, sort=V):
